@@ -344,3 +344,30 @@ pub fn gen_class(rng: &mut Rng, cfg: &GenCfg) -> Class {
     let mut g = G { rng, cfg, major };
     g.class()
 }
+
+/// Adds one large u4-counted payload to `c` (a legal but unusual shape: the only lists of the format whose length field is
+/// 4 bytes wide are attribute bodies): an unknown attribute at class / field / method / Code level or a
+/// SourceDebugExtension, with a size drawn around the 16-bit boundary and well beyond. Returns (where, size).
+pub fn add_large_payload(rng: &mut Rng, c: &mut Class) -> (&'static str, usize) {
+    const SIZES: [usize; 10] = [65_534, 65_535, 65_536, 65_537, 65_600, 70_000, 131_071, 131_072, 200_000, 1 << 20];
+    let size = *rng.pick(&SIZES);
+    let mut body = vec![0u8; size];
+    // non-constant content so that a truncated / shifted copy cannot compare equal
+    let mut x = rng.next_u64() | 1;
+    for b in body.iter_mut() { x ^= x << 13; x ^= x >> 7; x ^= x << 17; *b = x as u8; }
+    let name = JS::new(if rng.bool() { "verif.Large" } else { "LargeAttr" });
+    let mut choices: Vec<&'static str> = vec!["class.unknown", "class.source_debug_extension"];
+    if !c.fields.is_empty() { choices.push("field.unknown"); }
+    if !c.methods.is_empty() { choices.push("method.unknown"); }
+    if c.methods.iter().any(|m| m.code.is_some()) { choices.push("code.unknown"); }
+    let at = *rng.pick(&choices);
+    match at {
+        "class.unknown" => c.unknown.push((name, Bytes(body))),
+        // the debug extension is a modified UTF-8 string: keep it to one-byte characters other than NUL
+        "class.source_debug_extension" => { for b in body.iter_mut() { *b = (*b & 0x7f).max(1); } c.source_debug_extension = Some(Bytes(body)) }
+        "field.unknown" => { let i = rng.below(c.fields.len()); c.fields[i].unknown.push((name, Bytes(body))); }
+        "method.unknown" => { let i = rng.below(c.methods.len()); c.methods[i].unknown.push((name, Bytes(body))); }
+        _ => { let idx: Vec<usize> = (0..c.methods.len()).filter(|i| c.methods[*i].code.is_some()).collect(); let i = *rng.pick(&idx); if let Some(code) = c.methods[i].code.as_mut() { code.unknown.push((name, Bytes(body))); } }
+    }
+    (at, size)
+}
